@@ -83,7 +83,10 @@ LEVEL_TEXT = ('Theorems: the program regenerated from the current source equals 
               'relate_keeps_relation_lists); remove -- returning or raising part-way -- keeps them too, so they hold in EVERY '
               'reachable state whose added / registered objects come from a pool of distinguishable introspectables, and the '
               'unrelate theorem holds there without state hypotheses (remove_keeps_relation_lists, reachable_relation_lists, '
-              'unrelate_withdraws_exactly_reachable); for the Introspector state machine, for every operation sequence: '
+              'unrelate_withdraws_exactly_reachable); in every state reached without remove (adds, re-registrations with recorded '
+              'relate / unrelate relations, relate / unrelate of any number of entries, reads) the relation graph is symmetric, '
+              'has no self links, and `related` lists y for x exactly when it lists x for y (relations_symmetric_reachable, '
+              'related_symmetric_reachable); for the Introspector state machine, for every operation sequence: '
               'relations are symmetric and exact, get returns the latest registration, remove erases the entry, disabled '
               'introspection records nothing, only executed actions are recorded -- the last four also restated about the '
               'regenerated program (..._generated).')
